@@ -1050,3 +1050,64 @@ Proof.
     [cbn [negb]; replace (test OPT_Lock OPT_Rex) with false by (vm_compute; reflexivity); cbn [orb]; unfold xs_low in L; rewrite L; reflexivity
     |cbn [negb]; rewrite (G eq_refl); reflexivity].
 Qed.
+
+(* ------------------------------------------------------------------ round 7: standard operands under {k}{z} - zeroing-masking on an instruction with EVEX, K and Z, register destination *)
+Lemma db_row_validates_standard_kz : forall T zq x64 row ops kid nif naf,
+  forallb (sig_wf T) (vt_isig T) = true -> row_present T row = true ->
+  standard_registers_ok T = true ->
+  N.testbit (vd_base_regs (vt_vd64 T)) RT_Gp64 && N.testbit (vd_base_regs (vt_vd86 T)) RT_Gp32 = true ->
+  decor_present T (dr_inst row, nif, naf) = true -> test nif IF_Evex = true -> test naf AF_K = true -> test naf AF_Z = true ->
+  1 <= kid <= 7 -> first_is_mem ops = false -> test (dr_mode row) (mode_bit x64) = true ->
+  std_instances x64 (explicit_ops (dr_ops row)) ops = true ->
+  validate T zq x64 false {| vi_id := dr_inst row; vi_options := OPT_ZMask; vi_extra_type := RT_Mask; vi_extra_id := kid |} ops = E_Ok.
+Proof.
+  intros T zq x64 row ops kid nif naf WF P SR B D EV K Z KID FM M ST.
+  destruct (nth (N.to_nat (dr_inst row)) (vt_inst T) (0, 0, 0, 0)) as [[[iflags avx] sidx] scnt] eqn:ROW.
+  destruct (decor_flags _ _ _ _ _ _ _ _ D ROW) as [F1 F2].
+  pose proof (std_instances_ok T x64 iflags avx _ _ SR B ST) as OK.
+  destruct (operands_ok_xlat T x64 iflags avx _ ops init_xstate OK) as (st & XA & (sigs & S1 & S2) & L & G).
+  { unfold xs_low. reflexivity. }
+  { intros _. reflexivity. }
+  cbn [init_xstate xs_sigs app] in S1.
+  eapply (db_row_validates T zq x64 false row _ ops iflags avx sidx scnt st [] WF P); eauto; cbn [vi_options vi_extra_type vi_extra_id].
+  all: try (rewrite S1; exact S2).
+  all: try (unfold lock_stage; replace (test OPT_ZMask (N.lor OPT_Lock kXAcqXRel)) with false by (vm_compute; reflexivity); reflexivity).
+  all: try (unfold rep_stage; replace (test OPT_ZMask kRepAny) with false by (vm_compute; reflexivity); reflexivity).
+  all: try (unfold evex_stage; replace (test OPT_ZMask OPT_Evex) with false by (vm_compute; reflexivity); reflexivity).
+  all: try (apply avx_stage_ok; [apply F1; exact EV | intros _; split; [apply F2; exact Z | exact FM]
+                                | intros Q; exfalso; revert Q; vm_compute; discriminate]).
+  all: try (apply extra_stage_k; cbn [vi_options vi_extra_type vi_extra_id]; auto; vm_compute; reflexivity).
+  all: unfold mode_stage; destruct x64;
+    [cbn [negb]; replace (test OPT_ZMask OPT_Rex) with false by (vm_compute; reflexivity); cbn [orb]; unfold xs_low in L; rewrite L; reflexivity
+    |cbn [negb]; rewrite (G eq_refl); reflexivity].
+Qed.
+
+(* ------------------------------------------------------------------ round 7: standard operands with the {evex} option on an instruction that has an EVEX encoding *)
+Lemma db_row_validates_standard_evex : forall T zq x64 row ops nif naf,
+  forallb (sig_wf T) (vt_isig T) = true -> row_present T row = true ->
+  standard_registers_ok T = true ->
+  N.testbit (vd_base_regs (vt_vd64 T)) RT_Gp64 && N.testbit (vd_base_regs (vt_vd86 T)) RT_Gp32 = true ->
+  decor_present T (dr_inst row, nif, naf) = true -> test nif IF_Evex = true ->
+  test (dr_mode row) (mode_bit x64) = true ->
+  std_instances x64 (explicit_ops (dr_ops row)) ops = true ->
+  validate T zq x64 false {| vi_id := dr_inst row; vi_options := OPT_Evex; vi_extra_type := 0; vi_extra_id := 0 |} ops = E_Ok.
+Proof.
+  intros T zq x64 row ops nif naf WF P SR B D EV M ST.
+  destruct (nth (N.to_nat (dr_inst row)) (vt_inst T) (0, 0, 0, 0)) as [[[iflags avx] sidx] scnt] eqn:ROW.
+  destruct (decor_flags _ _ _ _ _ _ _ _ D ROW) as [F1 _].
+  pose proof (std_instances_ok T x64 iflags avx _ _ SR B ST) as OK.
+  destruct (operands_ok_xlat T x64 iflags avx _ ops init_xstate OK) as (st & XA & (sigs & S1 & S2) & L & G).
+  { unfold xs_low. reflexivity. }
+  { intros _. reflexivity. }
+  cbn [init_xstate xs_sigs app] in S1.
+  eapply (db_row_validates T zq x64 false row _ ops iflags avx sidx scnt st [] WF P); eauto; cbn [vi_options vi_extra_type vi_extra_id].
+  all: try (rewrite S1; exact S2).
+  all: try (unfold lock_stage; replace (test OPT_Evex (N.lor OPT_Lock kXAcqXRel)) with false by (vm_compute; reflexivity); reflexivity).
+  all: try (unfold rep_stage; replace (test OPT_Evex kRepAny) with false by (vm_compute; reflexivity); reflexivity).
+  all: try (unfold evex_stage; rewrite (F1 _ EV); cbn [negb]; rewrite andb_false_r; reflexivity).
+  all: try (unfold avx_stage; replace (test OPT_Evex kAvx512) with false by (vm_compute; reflexivity); reflexivity).
+  all: try (apply extra_stage_none; reflexivity).
+  all: unfold mode_stage; destruct x64;
+    [cbn [negb]; replace (test OPT_Evex OPT_Rex) with false by (vm_compute; reflexivity); cbn [orb]; unfold xs_low in L; rewrite L; reflexivity
+    |cbn [negb]; rewrite (G eq_refl); reflexivity].
+Qed.
